@@ -79,11 +79,15 @@ func (w *world) count(kind, req string) int {
 	return n
 }
 
+var worldSeq atomic.Int64
+
 func newWorld() *world { return newWorldOn(nil) }
 
 // newWorldOn: the server listens on the in-memory listener, optionally wrapped (TLS).
 func newWorldOn(wrap func(net.Listener) net.Listener) *world {
 	w := &world{l: memnet.Listen(), done: make(chan error, 1)}
+	// every second world listens on a listener that reports "closed" the way third-party listeners do
+	w.l.PlainClosedError = worldSeq.Add(1)%2 == 0
 	ex := kmipserver.NewBatchExecutor()
 	ex.Route(kmip.OperationActivate, kmipserver.HandleFunc(func(ctx context.Context, req *payloads.ActivateRequestPayload) (*payloads.ActivateResponsePayload, error) {
 		id := req.UniqueIdentifier
